@@ -31,7 +31,7 @@ KF_2T = "two_torsion_conflated_with_identity"
 def shards(tier, seed):
     q = tier == "quick"
     out = []
-    for c in lib.pick_curves(tier, seed, extra=3):
+    for c in lib.pick_curves(tier, seed, extra=12):
         out.append(("prod_%s" % c.name, dict(kind="prod", cname=c.name, nvalid=4 if q else 30, lz=c.order.bit_length() <= 256 or not q)))
     if not any(n == "prod_SECP112r2" for n, _ in out):
         out.append(("prod_SECP112r2", dict(kind="prod", cname="SECP112r2", nvalid=4, lz=True)))
